@@ -127,6 +127,11 @@ class FakeSock:
     def recv(self, bufsize: int) -> bytes:
         if len(self.log) >= self.budget:
             raise NonTermination(f"{len(self.log)} recv calls on {len(self.source)} bytes")
+        if bufsize < 0:
+            raise ValueError("negative buffersize in recv")  # as a real socket does
+        if bufsize == 0:
+            self.log.append((0, 0))
+            return b""  # a real socket returns b"" at once for a zero-byte request
         rem = len(self.source) - self.pos
         if self.script:
             ans = self.script.pop(0)
@@ -192,6 +197,11 @@ class SegSocket(socket.socket):
         self._ncalls += 1
         if self._ncalls > 8 * len(self._src) + 64:
             raise NonTermination("SegSocket recv budget")
+        if bufsize < 0:
+            raise ValueError("negative buffersize in recv")
+        if bufsize == 0:
+            self.recv_log.append(0)
+            return b""
         if i in self._faults:
             self.recv_log.append(self._faults[i])
             if self._faults[i] == "timeout":
